@@ -6,7 +6,20 @@
                      odata_query.roundtrip.
 """
 
-NATIVE_REF = r'''
+from vc.speclib import SHAPE as _SHAPE
+
+
+def _shape_literal():
+    def conv(x):
+        if isinstance(x, tuple):
+            return tuple(conv(y) for y in x)
+        if isinstance(x, list):
+            return [conv(y) for y in x]
+        return x
+    return repr({k: {f: conv(sp) for f, sp in v.items()} for k, v in _SHAPE.items()})
+
+
+NATIVE_REF = "SHAPE = " + _shape_literal() + "\n" + r'''
 import dataclasses, re
 from odata_query import ast
 
@@ -87,7 +100,38 @@ class Sanitizer:
 
 
 def sanitize(n):
-    return Sanitizer().node(n)
+    return Sanitizer().node(repair(n, "expr"))
+
+
+_EXPR = ["Identifier", "Attribute", "Null", "Integer", "Float", "Boolean", "String", "Geography", "Date", "Time",
+         "DateTime", "Duration", "GUID", "List", "BinOp", "Compare", "BoolOp", "UnaryOp", "Call", "CollectionLambda"]
+
+
+def repair(v, spec):
+    """Solver models constrain a witness only as deep as the obligation looks; below that the
+    values are arbitrary.  Replace sub-values that do not fit the AST shape by a default of the
+    right shape (the obligation did not depend on them)."""
+    if spec == "str":
+        return v if isinstance(v, str) else "w"
+    if spec == "strs":
+        return tuple(x if isinstance(x, str) else "w" for x in v) if isinstance(v, tuple) else ()
+    if spec in ("exprs", "args"):
+        if not isinstance(v, list):
+            return []
+        ok = _EXPR + (["NamedParam"] if spec == "args" else [])
+        return [repair(x, ("kind", ok)) for x in v]
+    if spec == "expr":
+        return repair(v, ("kind", _EXPR))
+    if spec[0] == "opt":
+        return None if v is None else repair(v, spec[1])
+    kinds = spec[1]
+    k = type(v).__name__
+    if not dataclasses.is_dataclass(v) or k not in kinds or k not in SHAPE:
+        d = kinds[0]
+        if d == "Identifier":
+            return ast.Identifier("w")
+        return getattr(ast, d)(**{f: repair(None, s) for f, s in SHAPE[d].items()})
+    return type(v)(**{f: repair(getattr(v, f), s) for f, s in SHAPE[k].items()})
 
 
 _OPTEXT = {"Add": "add", "Sub": "sub", "Mult": "mul", "Div": "div", "Mod": "mod", "Eq": "eq", "NotEq": "ne", "Lt": "lt",
